@@ -335,6 +335,11 @@ func run(c Sx) Result {
 	res := Result{}
 	var fails []string
 	failf := func(f string, a ...any) { fails = append(fails, fmt.Sprintf(f, a...)) }
+	// the one verified, recorded deviation (known_findings.json id C35-gaslimit-int64-wrap): with
+	// |parent-header| >= 2^63 the int64 subtraction in VerifyGaslimit wraps and the implementation accepts
+	// a gas limit the unbounded EIP-1559 rule rejects (or vice versa).  Reported with a stable prefix and a
+	// constant text, and only when nothing else failed on the case.
+	known := ""
 	switch AsInt(l[0]) {
 	case 0: // VerifyGaslimit
 		p, h := AsU64(l[1]), AsU64(l[2])
@@ -350,8 +355,11 @@ func run(c Sx) Result {
 		} else {
 			// |parent-header| >= 2^63: the int64 subtraction wraps; only model = implementation is compared
 			res.Tags = append(res.Tags, "gl:beyond-guard")
-			if want := specGasLimitClass(bu(p), bu(h)); want != cls {
-				res.Tags = append(res.Tags, "gl:beyond-guard-differs-from-spec")
+			if want := specGasLimitClass(bu(p), bu(h)); (want == 0) != (cls == 0) {
+				res.Tags = append(res.Tags, "gl:int64-wrap-verdict-differs")
+				known = "C35-gaslimit-int64-wrap: VerifyGaslimit with |parent-header| >= 2^63: the int64 subtraction wraps and the verdict differs from the unbounded EIP-1559 gas-limit rule"
+			} else if want != cls {
+				res.Tags = append(res.Tags, "gl:beyond-guard-class-differs")
 			}
 		}
 		res.Tags = append(res.Tags, fmt.Sprintf("gl:class%d", cls))
@@ -433,6 +441,21 @@ func run(c Sx) Result {
 			}
 		} else {
 			res.Tags = append(res.Tags, "bf:outside-guard")
+		}
+		{ // the int64 wrap reached through VerifyEIP1559Header (doubled parent at the transition, uncapped genesis limit)
+			pgl := bu(parent.GasLimit)
+			if !london {
+				pgl = mul(pgl, bi(2))
+			}
+			if fits64(pgl) && new(big.Int).Abs(sub(pgl, bu(hdr.GasLimit))).Cmp(two63) >= 0 {
+				want := specGasLimitClass(pgl, bu(hdr.GasLimit))
+				got, ok := isOk(ver)
+				implRejects := ok && (got.Int64() == 1 || got.Int64() == 2)
+				if (want != 0) != implRejects {
+					res.Tags = append(res.Tags, "v1559:int64-wrap-verdict-differs")
+					known = "C35-gaslimit-int64-wrap: VerifyEIP1559Header with |parentGasLimit-header| >= 2^63: the int64 subtraction in VerifyGaslimit wraps and the gas-limit verdict differs from the unbounded EIP-1559 rule"
+				}
+			}
 		}
 		res.Tags = append(res.Tags, "calc:"+String(AsList(calc)[0]))
 	case 2, 3, 6: // CalcExcessBlobGas / CalcBlobFee / calcExcessBlobGas
@@ -612,6 +635,8 @@ func run(c Sx) Result {
 done:
 	if len(fails) > 0 {
 		res.Oracle = strings.Join(fails, "; ")
+	} else if known != "" {
+		res.Oracle = known
 	}
 	return res
 }
